@@ -41,7 +41,21 @@ func CheckRootSchema(rootSchema *schema.Schema) {
 	for name := range types {
 		names = append(names, name)
 	}
-	sort.Strings(names)
+	// An unnamed type is named by an address: it takes its place by the file
+	// and the position it was read from, after the named ones.
+	sort.Slice(names, func(i, j int) bool {
+		a, b := types[names[i]], types[names[j]]
+		ua, ub := names[i][0] == '#', names[j][0] == '#'
+		switch {
+		case ua != ub:
+			return ub
+		case !ua || a.RootFile() == nil || b.RootFile() == nil:
+			return names[i] < names[j]
+		case a.RootFile().Name() != b.RootFile().Name():
+			return a.RootFile().Name() < b.RootFile().Name()
+		}
+		return a.Begin() < b.Begin()
+	})
 	for _, name := range names {
 		c.checkType(name, types[name], types)
 	}
